@@ -92,7 +92,7 @@ Proof.
   apply get_out. rewrite set_length. lia.
 Qed.
 
-Lemma run_update_vle {Val} (F : rule Val) s n : vle (g s) (g (run_update F s n)).
+Lemma run_update_vle {Val} (F : rule Val) s n ex : vle (g s) (g (run_update F s n ex)).
 Proof.
   unfold run_update; simpl. split; [apply set_length|]. intros m Vm.
   destruct (Nat.eq_dec n m) as [->|Ne]; [|rewrite get_set_other; auto].
@@ -114,11 +114,12 @@ Qed.
 Section Fuel.
   Context {Val : Type}.
   Variable F : rule Val.
+  Variable Dm : demand Val.
   Variable orig : bool.
 
   (* one call either does nothing at all or strictly decreases the number of unvisited nodes *)
   Lemma update_node_mono : forall fuel s n b s',
-    update_node F orig fuel s n b = Some s' ->
+    update_node F Dm orig fuel s n b = Some s' ->
     vle (g s) (g s') /\ (s' = s \/ unvis (g s') < unvis (g s)).
   Proof.
     induction fuel as [|f IH]; intros s n b s' E; [discriminate|].
@@ -132,29 +133,39 @@ Section Fuel.
     match type of E with match ?T with _ => _ end = _ => destruct T as [s2|] eqn:EB end; [|discriminate].
     assert (X2 : vle (g s1) (g s2)).
     { apply (fold_opt_inv (fun a => vle (g s1) (g a))
-               (fun a d => if visited (get (g a) d) then Some a else update_node F orig f a d true)
+               (fun a d => if visited (get (g a) d) then Some a else update_node F Dm orig f a d true)
                (deps (get (g s) n)) s1 s2); auto.
       - apply vle_refl.
       - intros a d a' _ Pa Ea. destruct (visited (get (g a) d)).
         + injection Ea as <-. exact Pa.
         + eapply vle_trans; [exact Pa|]. apply (IH a d true a' Ea). }
-    remember (if existsb (fun d => changed (get (g s2) d)) (deps (get (g s) n)) then run_update F s2 n else s2) as s3 eqn:Hs3.
-    assert (X3 : vle (g s2) (g s3)).
+    remember (Dm n (fires_of (g s2) (deps (get (g s) n)))) as ex eqn:Hex.
+    match type of E with match ?T with _ => _ end = _ => destruct T as [s2'|] eqn:EB' end; [|discriminate].
+    assert (X2' : vle (g s2) (g s2')).
+    { apply (fold_opt_inv (fun a => vle (g s2) (g a))
+               (fun a d => if visited (get (g a) d) then Some a else update_node F Dm orig f a d true)
+               ex s2 s2'); auto.
+      - apply vle_refl.
+      - intros a d a' _ Pa Ea. destruct (visited (get (g a) d)).
+        + injection Ea as <-. exact Pa.
+        + eapply vle_trans; [exact Pa|]. apply (IH a d true a' Ea). }
+    remember (if existsb (fun d => changed (get (g s2') d)) (deps (get (g s) n) ++ ex) then run_update F s2' n ex else s2') as s3 eqn:Hs3.
+    assert (X3 : vle (g s2') (g s3)).
     { rewrite Hs3. destruct (existsb _ _); [apply run_update_vle | apply vle_refl]. }
     remember (mark s3 n true true) as s4 eqn:Hs4.
     assert (X4 : vle (g s3) (g s4)) by (rewrite Hs4; apply mark_vle).
     assert (X04 : vle (g s) (g s4)).
-    { eapply vle_trans; [exact X1|]. eapply vle_trans; [exact X2|]. eapply vle_trans; [exact X3|exact X4]. }
+    { eapply vle_trans; [exact X1|]. eapply vle_trans; [exact X2|]. eapply vle_trans; [exact X2'|]. eapply vle_trans; [exact X3|exact X4]. }
     assert (Fin : forall s5, vle (g s4) (g s5) -> vle (g s) (g s5) /\ (s5 = s \/ unvis (g s5) < unvis (g s))).
     { intros s5 X5. assert (X05 : vle (g s) (g s5)) by (eapply vle_trans; eauto).
       split; auto. right. apply (unvis_lt _ _ n); auto.
-      apply X5. apply X4. apply X3. apply X2. exact V1. }
+      apply X5. apply X4. apply X3. apply X2'. apply X2. exact V1. }
     destruct (changed (get (g s4) n)).
     2:{ injection E as <-. apply Fin. apply vle_refl. }
     destruct (b && negb orig).
     { injection E as <-. apply Fin. simpl. apply vle_refl. }
     apply Fin.
-    apply (fold_opt_inv (fun a => vle (g s4) (g a)) (fun a m => update_node F orig f a m false)
+    apply (fold_opt_inv (fun a => vle (g s4) (g a)) (fun a m => update_node F Dm orig f a m false)
              (dependents (get (g s4) n)) s4 s'); auto.
     - apply vle_refl.
     - intros a m a' _ Pa Ea. eapply vle_trans; [exact Pa|]. apply (IH a m false a' Ea).
@@ -162,7 +173,7 @@ Section Fuel.
 
   (* (1) fuel sufficiency of update_node: more fuel than unvisited nodes is enough *)
   Theorem update_node_fuel : forall fuel s n b,
-    unvis (g s) < fuel -> update_node F orig fuel s n b <> None.
+    unvis (g s) < fuel -> update_node F Dm orig fuel s n b <> None.
   Proof.
     induction fuel as [|f IH]; intros s n b Hf; [lia|].
     cbn [update_node].
@@ -174,15 +185,24 @@ Section Fuel.
     assert (U1 : unvis (g s1) < f).
     { pose proof (unvis_lt _ _ n X1 Vn V1). lia. }
     destruct (fold_opt_some (fun a => unvis (g a) < f)
-                (fun a d => if visited (get (g a) d) then Some a else update_node F orig f a d true)
+                (fun a d => if visited (get (g a) d) then Some a else update_node F Dm orig f a d true)
                 (deps (get (g s) n)) s1 U1) as (s2 & EB & U2).
     { intros a d _ Pa. destruct (visited (get (g a) d)); [exists a; auto|].
-      destruct (update_node F orig f a d true) as [a'|] eqn:Ea; [|exfalso; eapply IH; eauto].
+      destruct (update_node F Dm orig f a d true) as [a'|] eqn:Ea; [|exfalso; eapply IH; eauto].
       exists a'; split; auto. destruct (update_node_mono _ _ _ _ _ Ea) as [Xa _].
       pose proof (unvis_le _ _ Xa). lia. }
     rewrite EB.
-    remember (if existsb (fun d => changed (get (g s2) d)) (deps (get (g s) n)) then run_update F s2 n else s2) as s3 eqn:Hs3.
-    assert (X3 : vle (g s2) (g s3)).
+    remember (Dm n (fires_of (g s2) (deps (get (g s) n)))) as ex eqn:Hex.
+    destruct (fold_opt_some (fun a => unvis (g a) < f)
+                (fun a d => if visited (get (g a) d) then Some a else update_node F Dm orig f a d true)
+                ex s2 U2) as (s2' & EB' & U2').
+    { intros a d _ Pa. destruct (visited (get (g a) d)); [exists a; auto|].
+      destruct (update_node F Dm orig f a d true) as [a'|] eqn:Ea; [|exfalso; eapply IH; eauto].
+      exists a'; split; auto. destruct (update_node_mono _ _ _ _ _ Ea) as [Xa _].
+      pose proof (unvis_le _ _ Xa). lia. }
+    rewrite EB'.
+    remember (if existsb (fun d => changed (get (g s2') d)) (deps (get (g s) n) ++ ex) then run_update F s2' n ex else s2') as s3 eqn:Hs3.
+    assert (X3 : vle (g s2') (g s3)).
     { rewrite Hs3. destruct (existsb _ _); [apply run_update_vle | apply vle_refl]. }
     remember (mark s3 n true true) as s4 eqn:Hs4.
     assert (X4 : vle (g s3) (g s4)) by (rewrite Hs4; apply mark_vle).
@@ -190,37 +210,37 @@ Section Fuel.
     { pose proof (unvis_le _ _ X3). pose proof (unvis_le _ _ X4). lia. }
     destruct (changed (get (g s4) n)); [|discriminate].
     destruct (b && negb orig); [discriminate|].
-    destruct (fold_opt_some (fun a => unvis (g a) < f) (fun a m => update_node F orig f a m false)
+    destruct (fold_opt_some (fun a => unvis (g a) < f) (fun a m => update_node F Dm orig f a m false)
                 (dependents (get (g s4) n)) s4 U4) as (s5 & EE & _).
     { intros a m _ Pa.
-      destruct (update_node F orig f a m false) as [a'|] eqn:Ea; [|exfalso; eapply IH; eauto].
+      destruct (update_node F Dm orig f a m false) as [a'|] eqn:Ea; [|exfalso; eapply IH; eauto].
       exists a'; split; auto. destruct (update_node_mono _ _ _ _ _ Ea) as [Xa _].
       pose proof (unvis_le _ _ Xa). lia. }
     rewrite EE. discriminate.
   Qed.
 
   Corollary update_node_fuel_length fuel s n b :
-    length (g s) < fuel -> update_node F orig fuel s n b <> None.
+    length (g s) < fuel -> update_node F Dm orig fuel s n b <> None.
   Proof. intros H. apply update_node_fuel. pose proof (unvis_le_length (g s)). lia. Qed.
 
-  Lemma drain_empty r fuel s : queue s = [] -> drain F orig (S r) fuel s = Some s.
+  Lemma drain_empty r fuel s : queue s = [] -> drain F Dm orig (S r) fuel s = Some s.
   Proof. intros Q. cbn [drain]. rewrite Q. reflexivity. Qed.
 
   (* (2) fuel sufficiency of the drain loop.  Every round but the last one marks at least one more
      node visited (otherwise nothing was appended to the queue), and the round after the last
      appending round only finds the queue empty: two rounds more than unvisited nodes are enough. *)
   Theorem drain_fuel : forall rounds fuel s,
-    unvis (g s) + 2 <= rounds -> unvis (g s) < fuel -> drain F orig rounds fuel s <> None.
+    unvis (g s) + 2 <= rounds -> unvis (g s) < fuel -> drain F Dm orig rounds fuel s <> None.
   Proof.
     induction rounds as [|r IH]; intros fuel s Hr Hf; [lia|].
     cbn [drain]. destruct (queue s) as [|q0 qs] eqn:Q; [discriminate|]. rewrite <- Q.
     remember {| g := g s; queue := []; log := log s |} as s0 eqn:Hs0.
     assert (G0 : g s0 = g s) by (rewrite Hs0; reflexivity).
     destruct (fold_opt_some (fun a => unvis (g a) <= unvis (g s) /\ (queue a = [] \/ unvis (g a) < unvis (g s)))
-                (fun a x => update_node F orig fuel a x false) (queue s) s0) as (s1 & E1 & U1 & QU1).
+                (fun a x => update_node F Dm orig fuel a x false) (queue s) s0) as (s1 & E1 & U1 & QU1).
     { rewrite G0. split; [lia|]. left. rewrite Hs0. reflexivity. }
     { intros a x _ [Ua Qa].
-      destruct (update_node F orig fuel a x false) as [a'|] eqn:Ea; [|exfalso; eapply update_node_fuel; [|exact Ea]; lia].
+      destruct (update_node F Dm orig fuel a x false) as [a'|] eqn:Ea; [|exfalso; eapply update_node_fuel; [|exact Ea]; lia].
       exists a'; split; auto. destruct (update_node_mono _ _ _ _ _ Ea) as [_ [->|Lt]]; [split; auto|].
       split; [lia|]. right. lia. }
     rewrite E1. destruct QU1 as [Q1|Lt1].
@@ -230,7 +250,7 @@ Section Fuel.
 
   (* exactly the fuels that EngineScript.estep uses *)
   Corollary drain_fuel_estep s :
-    drain F orig (S (S (length (g s)))) (S (S (length (g s) + length (g s)))) s <> None.
+    drain F Dm orig (S (S (length (g s)))) (S (S (length (g s) + length (g s)))) s <> None.
   Proof. pose proof (unvis_le_length (g s)). apply drain_fuel; lia. Qed.
 End Fuel.
 
